@@ -34,6 +34,9 @@ struct Script {
     y: u32,
 }
 
+// over-aligned on purpose: the value does not sit right behind the RcBox header, so the
+// offset arithmetic of from_raw / into_raw / increment/decrement_strong_count matters
+#[repr(align(32))]
 struct Node {
     id: u32,
     canary: u64,
@@ -58,6 +61,10 @@ impl SH {
 }
 impl Drop for SH {
     fn drop(&mut self) {
+        if unsafe { SCALE.quiet_hdrop } {
+            unsafe { ManuallyDrop::drop(&mut self.h) };
+            return;
+        }
         {
             let _u = UserScope::new();
             let w = world();
@@ -119,6 +126,12 @@ struct PanicMarker(#[allow(dead_code)] u32);
 
 impl Drop for Node {
     fn drop(&mut self) {
+        if unsafe { SCALE.quiet_hdrop } {
+            unsafe {
+                SCALE.nd += 1;
+            }
+            return;
+        }
         let _u = UserScope::new();
         let w = world();
         let id = self.id;
@@ -478,6 +491,7 @@ fn line_simple(w: &mut World, k: &str, kind: &str, a: u32, b: u32) {
     s.push_str("}\n");
     w.out = s;
     w.lines += 1;
+    flush_child(w);
 }
 
 fn line_call(w: &mut World, op: &Op) {
@@ -500,6 +514,7 @@ fn line_call(w: &mut World, op: &Op) {
     s.push_str("}\n");
     w.out = s;
     w.lines += 1;
+    flush_child(w);
 }
 
 fn line_ret(w: &mut World, op: &Op, ret: &str, panicked: bool, seen: &str) {
@@ -1226,6 +1241,50 @@ fn run_script(ops: &[Op], script_no: u64, layout: u64, out: &mut dyn Write) {
     w.out.clear();
 }
 
+/// child mode (C16): one script, calls that abort the process are really made, every trace
+/// line is flushed before the next library call so that the parent sees where the child died
+fn cmd_child(args: &[String]) {
+    let f = std::fs::File::open(&args[0]).expect("script file");
+    let line = std::io::BufReader::new(f).lines().next().expect("one script").unwrap();
+    let v: Value = serde_json::from_str(&line).expect("script json");
+    let ops: Vec<Op> = v.as_array().expect("array").iter().map(parse_op).collect();
+    let mut out = std::fs::File::create(&args[1]).expect("trace file");
+    let w = world();
+    reset_world(w);
+    w.real_abort = true;
+    w.out.clear();
+    let _ = writeln!(w.out, "{{\"k\":\"reset\",\"script\":0,\"layout\":0}}");
+    unsafe {
+        track::TRACK = true;
+        CHILD_OUT = Some(&mut out as *mut std::fs::File);
+    }
+    flush_child(w);
+    for op in &ops {
+        let w = world();
+        top_call(w, op);
+        flush_child(w);
+        if !w.ub.is_empty() || unsafe { track::NDOUBLE > 0 } || w.aborted {
+            break;
+        }
+    }
+    unsafe {
+        track::TRACK = false;
+        CHILD_OUT = None;
+    }
+}
+
+static mut CHILD_OUT: Option<*mut std::fs::File> = None;
+
+fn flush_child(w: &mut World) {
+    unsafe {
+        if let Some(f) = CHILD_OUT {
+            let _ = (*f).write_all(w.out.as_bytes());
+            let _ = (*f).flush();
+            w.out.clear();
+        }
+    }
+}
+
 fn cmd_replay(args: &[String]) {
     // replay <scripts.ndjson> <trace-out.ndjson> [layouts]
     let f = std::fs::File::open(&args[0]).expect("scripts file");
@@ -1279,7 +1338,8 @@ fn drive_script(rng: &mut SmallRng, len: usize, nobj: u32, profile: &str, script
     unsafe {
         track::TRACK = true;
     }
-    let strict = profile != "stale";
+    let strict = profile != "stale" && profile != "elide";
+    let strict_adopt = profile != "stale";
     let weak = profile != "core" && profile != "stale";
     let consume = profile == "consume";
     let mut scripted = 0u32;
@@ -1352,11 +1412,12 @@ fn drive_script(rng: &mut SmallRng, len: usize, nobj: u32, profile: &str, script
         if name == "MakeMut" && n >= nobj {
             continue; // no identity left for the allocation make_mut may create
         }
-        if strict && n > 0 {
+        if (strict || strict_adopt) && n > 0 {
             // respect the contract of adopt_unchecked: never more records than stored handles
+            // (profile "elide" may remove recorded handles without unadopt, but never over-records)
             let ok = match name {
                 "Adopt" => recorded_count(w, a, b) < stored_count(w, a, b),
-                "Take" | "DropStored" => recorded_count(w, a, b) < stored_count(w, a, b),
+                "Take" | "DropStored" => !strict || recorded_count(w, a, b) < stored_count(w, a, b),
                 _ => true,
             };
             if !ok {
@@ -1422,6 +1483,162 @@ fn cmd_drive(args: &[String]) {
     eprintln!("drove {} scripts, {} lines", nscripts, world().lines);
 }
 
+// ---------------------------------------------------------------------------
+// Scale mode (C15): large groups on a small fixed stack, aggregated counters only
+
+fn thread_cpu_us() -> u64 {
+    // CLOCK_THREAD_CPUTIME_ID = 3 on Linux
+    #[repr(C)]
+    struct Ts {
+        sec: i64,
+        nsec: i64,
+    }
+    extern "C" {
+        fn clock_gettime(clk: i32, ts: *mut Ts) -> i32;
+    }
+    let mut ts = Ts { sec: 0, nsec: 0 };
+    unsafe {
+        clock_gettime(3, &mut ts);
+    }
+    (ts.sec as u64) * 1_000_000 + (ts.nsec as u64) / 1000
+}
+
+/// Builds the shape with `n` objects (every stored handle adopted), keeps one outside handle,
+/// drops it and reports what the collection cost. Runs on the calling thread.
+fn scale_one(shape: &str, n: usize, sink_on: bool) -> String {
+    let w = world();
+    reset_world(w);
+    w.quiet = true;
+    verif::set_sink(if sink_on { Some(sink_scale) } else { None });
+    unsafe {
+        SCALE = ScaleCnt::default();
+    }
+    let mk = |id: usize| Rc::new(Node { id: id as u32, canary: MAGIC ^ id as u64, strong: RefCell::new(Vec::new()), weak: RefCell::new(Vec::new()) });
+    let nodes: Vec<Rc<Node>> = (1..=n).map(mk).collect();
+    let mut links = 0usize;
+    let mut edge = |a: usize, b: usize, links: &mut usize| {
+        let h = Rc::clone(&nodes[b]);
+        unsafe {
+            Rc::adopt_unchecked(&nodes[a], &h);
+        }
+        nodes[a].strong.borrow_mut().push(SH { h: ManuallyDrop::new(h), owner: 0, target: 0 });
+        *links += 1;
+    };
+    match shape {
+        "ring" => {
+            for i in 0..n {
+                edge(i, (i + 1) % n, &mut links);
+            }
+        }
+        "chords" => {
+            for i in 0..n {
+                edge(i, (i + 1) % n, &mut links);
+                if i % 3 == 0 {
+                    edge(i, (i * 7 + 5) % n, &mut links);
+                }
+                if i % 5 == 0 {
+                    edge(i, i, &mut links); // self-adoption through a clone
+                }
+                if i % 11 == 0 {
+                    unsafe {
+                        Rc::adopt_unchecked(&nodes[i], &nodes[i]); // same-handle self-adoption
+                    }
+                }
+            }
+        }
+        "wheel" => {
+            // hub 0 adopts every rim node, rim nodes form a ring and adopt the hub back
+            for i in 1..n {
+                edge(0, i, &mut links);
+                edge(i, if i + 1 < n { i + 1 } else { 1 }, &mut links);
+                edge(i, 0, &mut links);
+            }
+        }
+        "clique" => {
+            for i in 0..n {
+                for j in 0..n {
+                    if i != j {
+                        edge(i, j, &mut links);
+                    }
+                }
+            }
+        }
+        _ => {}
+    }
+    let weak0 = Rc::downgrade(&nodes[0]);
+    let weakl = Rc::downgrade(&nodes[n - 1]);
+    let mut it = nodes.into_iter();
+    let keep = it.next().unwrap();
+    drop(it); // all other outside handles
+    unsafe {
+        SCALE = ScaleCnt::default();
+        SCALE.quiet_hdrop = true;
+    }
+    let t0 = thread_cpu_us();
+    drop(keep); // the orphaning drop
+    let cpu = thread_cpu_us() - t0;
+    let c = unsafe { SCALE };
+    let alive = weak0.upgrade().is_some() || weakl.upgrade().is_some();
+    verif::set_sink(Some(sink));
+    format!(
+        "{{\"k\":\"scale\",\"shape\":\"{}\",\"n\":{},\"links\":{},\"ntrace\":{},\"npop\":{},\"nvisit\":{},\"maxdepth\":{},\"nd\":{},\"alive\":{},\"cpu_us\":{}}}",
+        shape, n, links, c.ntrace, c.npop, c.nvisit, c.maxdepth, c.nd, alive, cpu
+    )
+}
+
+#[derive(Clone, Copy, Default)]
+struct ScaleCnt {
+    ntrace: u64,
+    npop: u64,
+    nvisit: u64,
+    depth: i64,
+    maxdepth: i64,
+    nd: u64,
+    quiet_hdrop: bool,
+}
+static mut SCALE: ScaleCnt = ScaleCnt { ntrace: 0, npop: 0, nvisit: 0, depth: 0, maxdepth: 0, nd: 0, quiet_hdrop: false };
+
+fn sink_scale(e: Event) {
+    unsafe {
+        match e {
+            Event::TraceStart(_) => SCALE.ntrace += 1,
+            Event::TracePop(_) => SCALE.npop += 1,
+            Event::TraceVisit(_) => SCALE.nvisit += 1,
+            Event::DropEnter(_) => {
+                SCALE.depth += 1;
+                if SCALE.depth > SCALE.maxdepth {
+                    SCALE.maxdepth = SCALE.depth;
+                }
+            }
+            Event::DropExit(_) => SCALE.depth -= 1,
+            _ => {}
+        }
+    }
+}
+
+fn cmd_scale(args: &[String]) {
+    // scale <out> <stack_kib> <shape:n> ...   -- each shape on its own small-stack thread
+    let mut out = BufWriter::new(std::fs::File::create(&args[0]).expect("out"));
+    let stack_kib: usize = args[1].parse().unwrap();
+    for spec in &args[2..] {
+        let (shape, n) = spec.split_once(':').unwrap();
+        let n: usize = n.parse().unwrap();
+        let shape = shape.to_string();
+        // announce before running: if the thread overflows its stack the process dies here
+        writeln!(out, "{{\"k\":\"scale_begin\",\"shape\":\"{}\",\"n\":{},\"stack_kib\":{}}}", shape, n, stack_kib).unwrap();
+        out.flush().unwrap();
+        let sh = shape.clone();
+        let line = std::thread::Builder::new()
+            .stack_size(stack_kib * 1024)
+            .spawn(move || scale_one(&sh, n, true))
+            .unwrap()
+            .join()
+            .unwrap_or_else(|_| format!("{{\"k\":\"scale_panic\",\"shape\":\"{}\",\"n\":{}}}", shape, n));
+        writeln!(out, "{}", line).unwrap();
+        out.flush().unwrap();
+    }
+}
+
 fn main() {
     verif::set_sink(Some(sink));
     // silence the default panic message for scripted panics
@@ -1430,6 +1647,8 @@ fn main() {
     match args.get(1).map(String::as_str) {
         Some("replay") => cmd_replay(&args[2..]),
         Some("drive") => cmd_drive(&args[2..]),
+        Some("scale") => cmd_scale(&args[2..]),
+        Some("child") => cmd_child(&args[2..]),
         _ => {
             eprintln!("usage: cactus-harness replay <scripts> <out> [layouts]");
             std::process::exit(2);
